@@ -95,4 +95,74 @@ def poolResp (dflt poolLimit proxyLimit : Int) (isHead : Bool) (backendStatus : 
   | .shortRead => ⟨500, false, .shortRead⟩
   | o => ⟨backendStatus, true, o⟩
 
+
+/-! ### Reader contract for the regenerated tie by translation (`Gen/FactsC07IR.lean`)
+
+`harness/factextract/facts_c07_ir.go` re-translates the bodies of `Request.FetchPayload`,
+`Response.FetchPayload` and the two call sites (mux.serveHTTP, ServerPool.buildResponse) on
+every run. The translated code talks about `error` values, payloads and a *stateful* body
+reader; these are their models. The reader contract (trusted, exercised by the `fetch`
+harness) is: a body source delivers `actual` bytes and then `io.EOF`, nothing else fails. -/
+
+/-- The `error` values `FetchPayload` can see or produce. -/
+inductive Err
+  | nil
+  | eof              -- io.EOF
+  | unexpectedEOF    -- io.ErrUnexpectedEOF
+  | tooLarge         -- ErrRequestEntityTooLarge / ErrResponseEntityTooLarge
+  | other
+deriving Repr, DecidableEq
+
+/-- `Request.payload/stream`, `Response.payload/stream` after `SetPayload` (byte slices are known by length). -/
+inductive Pay
+  | unset
+  | stream
+  | bytes (n : Nat)
+deriving Repr, DecidableEq
+
+/-- A body reader: the source and how many bytes earlier reads have consumed. -/
+structure Rd where
+  src : Src
+  consumed : Nat
+deriving Repr, DecidableEq
+
+def Rd.left (b : Rd) : Nat := b.src.actual - b.consumed
+
+/-- `io.ReadFull(body, buf)` with `len(buf) = n`: (bytes read, error). -/
+def readFull (b : Rd) (n : Nat) : Int × Err :=
+  if n == 0 then (0, .nil)
+  else if n ≤ b.left then ((n : Int), .nil)
+  else if b.left == 0 then (0, .eof)
+  else ((b.left : Int), .unexpectedEOF)
+
+/-- `io.ReadAll(io.LimitReader(body, max))`: (length of the slice read, error). -/
+def readAllLimited (lb : Rd × Int) : Nat × Err := (min lb.1.left lb.2.toNat, .nil)
+
+/-- `io.Copy(io.Discard, body)`: (bytes copied, error). -/
+def copyDiscard (b : Rd) : Int × Err := ((b.left : Int), .nil)
+
+/-- What `(payload state, returned error)` means in terms of `Outcome`. -/
+def toOutcome : Pay × Err → Option Outcome
+  | (.stream, .nil) => some .stream
+  | (.bytes n, .nil) => some (.ok n)
+  | (_, .tooLarge) => some .tooLarge
+  | (_, .unexpectedEOF) => some .shortRead
+  | _ => none        -- a bare io.EOF / another error / nil without a payload: never produced
+
+/-! ### A body reader that *fails* instead of ending
+
+The transport's body returns `io.ErrUnexpectedEOF` when the backend closes before `Content-Length`
+bytes were sent; a wrapper around it (the gzip compressor of the Proxy's `compression:`) hides the
+declared length (`ContentLength = -1`) and must pass that error on. `actual` = bytes the wrapped
+reader delivers before failing. -/
+
+/-- `FetchPayload` (unknown length) on a reader that fails after `actual` bytes: `io.ReadAll` returns the
+error when it is hit within the limit; otherwise `io.Copy` reads `n > 0` further bytes, or — at exactly the
+limit — `n = 0` and the error. It never succeeds. -/
+def fetchFailing (dflt limit : Int) (actual : Nat) : Outcome :=
+  let lim := normLimit dflt limit
+  if lim < 0 then .stream
+  else if actual ≤ lim.toNat then .shortRead
+  else .tooLarge
+
 end EgVerif.Payload
